@@ -158,9 +158,31 @@ def gen_sources(rng, n_sources, bsz, max_msgs=12, containers=("plain",), tie_hea
                     p.instants = sorted(list(p.instants) + [p.instants[-1]] * (p.n_msgs - len(p.instants)))
             content, msgs, pre = world.gen_text_log(rng, p)
         kind = rng.choice(containers)
-        stored, descr = world.random_container(rng, kind, content, mtime=0, name=name)
-        sources.append(Source(name + world.SUFFIX[kind], "text", msgs, stored, content, kind, descr))
+        # modification times (file system, gz header): stamps that carry a year owe nothing to them, so they are drawn
+        # freely -- long before, inside and after the span of the messages, and "now"
+        mt_file, mt_hdr = draw_mtime(rng, msgs), draw_mtime(rng, msgs) or 0
+        stored, descr = world.random_container(rng, kind, content, mtime=mt_hdr, name=name)
+        src = Source(name + world.SUFFIX[kind], "text", msgs, stored, content, kind, descr, mtime=mt_file)
+        src.hdr_mtime = mt_hdr
+        sources.append(src)
     return sources
+
+
+def draw_mtime(rng, msgs):
+    """seconds since the epoch, or None for 'whenever the file is written'"""
+    r = rng.random()
+    if r < 0.3 or not msgs:
+        return None
+    ts = [m.instant // 1_000_000_000 for m in msgs]
+    if r < 0.45:
+        return 86400 + rng.randrange(0, 1000)                 # 1970
+    if r < 0.6:
+        return max(1, ts[0] - rng.choice((1, 3600, 86400 * 400)))
+    if r < 0.75:
+        return max(1, rng.choice(ts) + rng.choice((-1, 0, 1)))
+    if r < 0.9:
+        return ts[-1] + rng.choice((0, 1, 3600))
+    return 3786912000 + rng.randrange(0, 1000)                # 2090
 
 
 def inflate_message(rng, src, style=None):
@@ -200,7 +222,7 @@ def inflate_message(rng, src, style=None):
     if src.container == "plain":
         src.stored = src.plain
     else:
-        src.stored, src.descr = world.random_container(rng, src.container, src.plain, mtime=0, name=src.path)
+        src.stored, src.descr = world.random_container(rng, src.container, src.plain, mtime=getattr(src, "hdr_mtime", 0), name=src.path)
     return style
 
 
